@@ -132,6 +132,31 @@ FAMILY = {
                         'type A { n: int64 { constraint pos } }'),
 }
 
+# deep-nesting group: one wide type whose only difference sits three levels
+# down (on a constraint of a link property), two levels down, or one
+_WIDE = ' '.join(f'p{i}: str;' for i in range(12))
+
+
+def _deep(lp_body='', con_body='', lp_extra=''):
+    con = ('constraint min_value(0)' +
+           (' { %s }' % con_body if con_body else ''))
+    return D('type A { name: str; } type B { %s multi a: A { '
+             'w: int64 { %s; %s } %s } }' % (_WIDE, con, lp_body, lp_extra))
+
+
+DEEP = {
+    'DEEP_0': _deep(),
+    'DEEP_err': _deep(con_body='errmessage := "neg"'),
+    'DEEP_err2': _deep(con_body='errmessage := "negative"'),
+    'DEEP_cann': _deep(con_body='annotation title := "t"'),
+    'DEEP_lpann': _deep(lp_body='annotation title := "t"'),
+    'DEEP_lpdef': _deep(lp_body='default := 1'),
+    'DEEP_lp2': _deep(lp_extra='v: str;'),
+}
+FAMILY.update(DEEP)
+# groups of members that are (in addition) migrated among themselves only
+FOCUS_GROUPS = [list(DEEP)]
+
 # members whose second module shadows std names used (unqualified in the
 # source) by the first one: the described text must stay self-contained
 SHADOW = {
